@@ -187,6 +187,7 @@ class AutoRestartTrick(Trick):
 
         self.process: subprocess.Popen[bytes] | None = None
         self.process_watcher: ProcessWatcher | None = None
+        self._process_watchers: list[ProcessWatcher] = []
         self.event_debouncer: EventDebouncer | None = None
         self.restart_count = 0
 
@@ -222,13 +223,14 @@ class AutoRestartTrick(Trick):
             self.event_debouncer.stop()
         # Wait for a restart that is under way: it must not leave a child behind.
         with self._restart_lock:
-            process_watcher = self.process_watcher
+            # A watcher that a restart has replaced may still be on its way out.
+            process_watchers = self._process_watchers
             self._stop_process()
 
         # Don't leak threads: Wait for background threads to stop.
         if self.event_debouncer is not None:
             self.event_debouncer.join()
-        if process_watcher is not None:
+        for process_watcher in process_watchers:
             process_watcher.join()
 
     def _start_process(self) -> None:
@@ -239,6 +241,8 @@ class AutoRestartTrick(Trick):
         self.process = subprocess.Popen(self.command, preexec_fn=getattr(os, "setsid", None))
         if self.restart_on_command_exit:
             self.process_watcher = ProcessWatcher(self.process, self._restart_process)
+            self._process_watchers = [w for w in self._process_watchers if w.is_alive()]
+            self._process_watchers.append(self.process_watcher)
             self.process_watcher.start()
 
     def _stop_process(self) -> None:
